@@ -179,8 +179,8 @@ func TestVP_C24_deferred(t *testing.T) {
 		}
 		// how far the own chain has got: 0 = untouched head round after genesis,
 		// 1 = head round holds snapshots, 2 = that head round is round 2 or later
-		depth := rapid.SampledFrom([]int{0, 1, 1, 2, 2}).Draw(t, "own_depth")
-		special := rapid.SampledFrom([]string{"", "", "", "", "", "", "", "day-edge", "others-ahead", "pool-full"}).Draw(t, "special")
+		depth := rapid.SampledFrom([]int{0, 0, 1, 1, 2, 2, 2}).Draw(t, "own_depth")
+		special := rapid.SampledFrom([]string{"", "", "", "", "", "", "", "day-edge", "others-ahead", "others-ahead", "pool-full"}).Draw(t, "special")
 		prelim := special == "" && rapid.IntRange(0, 2).Draw(t, "prelim") == 0
 		steps := rapid.IntRange(0, 4).Draw(t, "prefix_steps")
 		for i := 0; i < steps; i++ {
@@ -424,7 +424,7 @@ func TestVP_C24_deferred(t *testing.T) {
 				}
 			}
 		default:
-			place, now = placeClock("batch", []string{"in-round", "cutoff", "new-round", "behind", "behind"})
+			place, now = placeClock("batch", []string{"in-round", "cutoff", "new-round", "behind", "behind", "behind"})
 		}
 		// the refusals inside prepareAnnouncement are only reached when the
 		// sanity checks pass: favour good sync points and no competitor there
